@@ -173,6 +173,12 @@ def generate_for_map(
     key_values = list(generate_for_type(key_def, spec, visited))
     value_values = list(generate_for_type(value_def, spec, visited))
 
+    if not key_values or not value_values:
+        # No entry can be generated (recursion into the value type was cut off):
+        # the empty map is still a value of the map type.
+        yield (True, {})
+        return
+
     for key_valid, key_value in key_values:
         for value_valid, value_value in value_values:
             if not (isinstance(key_value, Ignore) or isinstance(value_value, Ignore)):
